@@ -87,6 +87,7 @@ func (c *genCfg) inputs(emit func(string)) {
 		}
 		truncations(htmlTemplates, htmlDecoys, emit)
 		tableDrivenHTML(emit)
+		lateVectorsHTML(thorough, emit)
 		for i, k := 0, n(150000, 3000000); i < k; i++ {
 			emit(fragGen(rng, htmlFrag, htmlAlpha, 8))
 		}
@@ -490,5 +491,31 @@ func tableDrivenHTML(emit func(string)) {
 		emit("x\" " + w + "=\"data:x")
 		emit("<a " + w + "=x>")
 		emit("<a " + w + "=onclick>")
+	}
+}
+
+
+// lateVectorsHTML: a vector after many tokens (a token or byte budget in the detector or in the
+// tokenizer shows only on long inputs; sizes straddle the powers of two)
+func lateVectorsHTML(thorough bool, emit func(string)) {
+	top := 11
+	if thorough {
+		top = 14
+	}
+	fams := [][3]string{
+		{"", "<b>", "<script>alert(1)</script>"},
+		{"", "<b c=d>", "<p onclick=x>"},
+		{"", "a ", "<svg/onload=1>"},
+		{"", "x=1 ", "onerror=alert(1)"},
+		{"' ", "x=1 ", "y onerror=alert(1)"},
+		{"\" ", "x=1 ", "y onerror=alert(1)"},
+		{"` ", "x=1 ", "y onerror=alert(1)"},
+	}
+	for k := 4; k <= top; k++ {
+		for _, n := range []int{1<<k - 1, 1 << k, 1<<k + 1} {
+			for _, f := range fams {
+				emit(f[0] + strings.Repeat(f[1], n) + f[2])
+			}
+		}
 	}
 }
